@@ -492,7 +492,7 @@ def through(medium, bundle):
         return copy.deepcopy(bundle)
     if medium == 'pickle':
         return pickle.loads(pickle.dumps(bundle))
-    return yaml.load(yaml.dump(bundle), Loader=yaml.Loader)
+    return yaml.load(yaml.dump(bundle, sort_keys=False), Loader=yaml.Loader)     # (mappings keep their order, as in the other media)
 
 
 def accessors(p):
